@@ -105,8 +105,8 @@ Proof. exact mean_dim_correct. Qed.
 Print Assumptions C08_mean_dim.
 
 Theorem C08_amax : forall s dims keepdim out,
-  (0 < zlen s \/ dims = []) ->
-  torch_reduce_shape s (Some dims) keepdim = Some out -> aten_amax s dims keepdim = Some out.
+  (0 < zlen s \/ dims = Some [] \/ dims = None) ->
+  torch_reduce_shape s dims keepdim = Some out -> aten_amax s dims keepdim = Some out.
 Proof. exact amax_correct. Qed.
 Print Assumptions C08_amax.
 
